@@ -111,6 +111,19 @@ func runC09Case(c *fw.Ctx, id string, cs c09Case) {
 	}
 	client := gohbase.VerifNewClient(cl.ZK(), gohbase.RegionDialer(cl.Dialer()), gohbase.Logger(logger), gohbase.RpcQueueSize(cs.Queue),
 		gohbase.FlushInterval(time.Millisecond), gohbase.RegionLookupTimeout(2*time.Second), gohbase.RegionReadTimeout(2*time.Second))
+	// one more preemption point: the construction of a connection object, which
+	// runs inside the connection cache's critical section
+	var nrMu sync.Mutex
+	nr := rand.New(rand.NewSource(cs.Seed ^ 0x2545f491))
+	gohbase.VerifOnNewRegionClient(client, func(string) {
+		nrMu.Lock()
+		d := nr.Intn(2000)
+		nrMu.Unlock()
+		atomic.AddInt64(&hookEvents, 1)
+		if d > 300 {
+			time.Sleep(time.Duration(d) * time.Microsecond)
+		}
+	})
 	stopFaults := make(chan struct{})
 	var faultsWg sync.WaitGroup
 	faultCounts := map[string]int64{}
@@ -342,7 +355,7 @@ func init() {
 		RaceIsViolation: true,
 		Rule: "race-detector builds; runs with G in {8,32,128} callers (gets, puts, batches, scans with a 2 ms renew interval, repeated CacheRegions) x R in " +
 			"{1,4,16} regions x S in {1,2,4} servers while an injector applies, every 2..27 ms, connection kills, offline bursts, " +
-			"splits, moves, abort exceptions and refused dials; ten of the client's log statements act as preemption points with " +
+			"splits, moves, abort exceptions and refused dials; ten of the client's log statements and the construction of connection objects act as preemption points with " +
 			"seeded delays up to 3 ms. Each run ends with a fault-free phase, a final round over all regions and quiescence " +
 			"checks (no caller blocked, no cached region unavailable, no region holding a dead connection); panics and fatal " +
 			"errors end the child process and are attributed by the crash monitor; race reports with gohbase frames are " +
